@@ -73,7 +73,7 @@ PROPS['C03'] = dict(
 )
 
 PROPS['C04'] = dict(
-    unit_modules=['contracts.c04_evaluate'], driver_modules=['drivers.c04'], level='other',
+    unit_modules=['contracts.c04_evaluate', 'contracts.c03_references'], driver_modules=['drivers.c04'], level='other',
     level_text="The contract of the real Evaluator.evaluate / resolve_names / EvaluatorContext / Model.set_cell_value, interpreted from source on real Model, XLCell and XLFormula objects whose compiled tree is an opaque logged collaborator yielding SYMBOLIC values: the result is what the tree yields under a context for THIS cell and becomes the stored value; a defined name evaluates its cell; set_cell_value by address, by name (also when the name keeps its own copy of the cell) or on a cell that did not exist writes exactly the addressed cell; and 3-step histories 'evaluate; change an input (address / name / new cell); evaluate' yield what a fresh evaluation of the current inputs yields - for ALL values of every primitive type. Longer histories over real formulas (6 small models, every history up to length 3-4 plus 1500/20000 random ones up to length 8, two evaluators) are BOUNDED, compared with freshly compiled models. Claimed 'other': the statement quantifies over all histories and all formula graphs.",
     level_note='Trusted: the formula tree as an opaque collaborator (its own behaviour is C01/C03/C07...); read frames (stale value / need_update never read) are proof devices stronger than the statement and never escalate to a violation on their own; pyvc interpreter (cross-check + canary); z3.',
     trusted_base=['intrinsic axioms of the uninterpreted builtins (pyvc/models.py UF_AXIOMS), natively tested on every run', 'opaque collaborator: XLFormula.ast.eval(context)'],
